@@ -79,6 +79,12 @@ def decl_graphs(rng):
               "static class St1 { public static int v = twice1(4) + 1; }\n", "function twice1(int x) -> int { return x + x; }\n",
               "function main() -> void {\n  Derived1 d = new Derived1();\n  d.f(new Animal1());\n  d.f(new Stone1());\n  echo(St1.v);\n}\n"]
     out.append(chunks)
+    # a program that brings its own root class: the classes extending it implicitly may come before it (no library is reachable in the harness)
+    chunks = ["class Object { public int id = 7; public constructor() -> Object = default; public virtual function name() -> string { return \"obj\"; } }\n",
+              "class A2 { public int a = 1; public constructor() -> A2 = default; public override function name() -> string { return \"A2\"; } }\n",
+              "class B2 extends A2 { public int b = 2; public constructor() -> B2 { super(); } }\n",
+              "function main() -> void { B2 x = new B2(); Object o = x; echo(x.id); echo(x.a); echo(x.b); echo(o.name()); }\n"]
+    out.append(chunks)
     return out
 
 
